@@ -175,7 +175,9 @@ func refGCM(key []byte) cipher.AEAD {
 	return g
 }
 
-func refSeal(key, nonce, plain []byte) []byte { return refGCM(key).Seal(nil, nonce, plain, []byte(refAD)) }
+func refSeal(key, nonce, plain []byte) []byte {
+	return refGCM(key).Seal(nil, nonce, plain, []byte(refAD))
+}
 func refOpen(key, nonce, ct []byte) ([]byte, error) {
 	if len(nonce) != 12 {
 		return nil, fmt.Errorf("nonce length %d", len(nonce))
